@@ -141,6 +141,9 @@ CLI_SIZES_QUICK = [(1, 1), (1, 3), (3, 1), (2, 2), (3, 3)]
 CLI_SIZES_MORE = [(1, 5), (5, 1), (2, 3), (4, 4), (5, 5)]
 CLI_PROFILES = [(0.01, 0.01, 0.01, 0.01), (0.5, 0.5, 0.5, 0.5), (0.99, 0.99, 0.99, 0.99),
                 (0.01, 0.99, 0.5, 0.3), (0.1, 0.29, 0.57, 0.3)]     # p (robot), q (light), r (tile), t (loose)
+# probabilities finer than one percent: the command line must pass them on as given (the file name is percent-granular,
+# the contents are not)
+CLI_FINE = [(0.125, 0.335, 0.215, 0.125), (0.004, 0.996, 0.0051, 0.996), (0.9949, 0.0049, 0.5049, 0.004)]
 
 
 def cli_params(ctx):
@@ -157,6 +160,8 @@ def cli_params(ctx):
     if ctx.quick:
         for k, (p, q, r, t) in enumerate(CLI_PROFILES):
             out.append(dict(seed=k, length=2, width=3, p=p, q=q, r=r, t=t, m=6, f=bool(k % 2)))
+    for k, (p, q, r, t) in enumerate(CLI_FINE):
+        out.append(dict(seed=3 + k, length=[3, 4, 2][k], width=[3, 2, 4][k], p=p, q=q, r=r, t=t, m=[6, 2, 4][k], f=bool(k % 2)))
     return out
 
 
